@@ -71,13 +71,17 @@ Fixpoint trim_dot (s : str) : str :=          (* strings.TrimSuffix(s, dot) *)
   | c :: t => c :: trim_dot t
   end.
 
+(* ASCII letters to lower case, every other byte as it is *)
+Definition ascii_lower (s : str) : str := map (fun c => if (65 <=? c) && (c <=? 90) then c + 32 else c) s.
+
 Section Oracles.
   Variables nfc lower : str -> str.                  (* norm.NFC.String, strings.ToLower *)
   Variables to_unicode to_ascii : str -> option str. (* idna.ToUnicode / ToASCII; None = error *)
 
-  (* dns.ForLookup *)
+  (* dns.ForLookup: the IDNA library recognises the ACE prefix in lower case only, so the ASCII
+     letters are lower-cased before it is asked *)
   Definition dns_for_lookup (d : str) : str * bool :=
-    match to_unicode d with
+    match to_unicode (ascii_lower d) with
     | None => (lower d, false)
     | Some u => (trim_dot (lower (nfc u)), true)
     end.
